@@ -2,7 +2,7 @@ SPECIFICATION Spec
 CONSTANTS
   MODE = "reduce"
   K = 2
-  NF = 4
+  NF = 3
   NG = 0
   PF = "p2s"
   TF = "t22c"
